@@ -802,6 +802,21 @@ func (m *Model) applyTx(ws *MState, ti *TxInfo, r *abci.ResponseDeliverTx, h int
 			break
 		}
 		p := ws.Proposals[hx(pl.TxHash)]
+		if p == nil && len(pl.TxHash) > 32 {
+			// an over-long reference: the properties do not say which 32 bytes name the proposal. Any reading is
+			// accepted as long as the vote is admissible for the proposal it names and is counted there.
+			for _, ref := range [][]byte{pl.TxHash[:32], pl.TxHash[len(pl.TxHash)-32:]} {
+				if q := ws.Proposals[hx(ref)]; q != nil {
+					if p == nil {
+						p = q
+					}
+					if q.Voters[from] != nil && h >= q.Start && h <= q.End && pl.Choice >= 0 && int(pl.Choice) < len(q.Options) {
+						p = q
+						break
+					}
+				}
+			}
+		}
 		if p == nil {
 			issue("C15", "vote-on-unknown-proposal-accepted", "vote for a proposal that is not open")
 			break
